@@ -298,6 +298,214 @@ theorem complete_single (e : Env) (stored : Nat → Bytes) (file : Bytes) (valid
       exact ⟨i1, fun r hrm => i2 r hrm, i3⟩
 
 
+/-- the download layer has chunk `rc` open (nothing of it written yet), having worked through the entries `pre` of the request -/
+def OpenAt (e : Env) (st : St) (pre : List RChunk) (rc : RChunk) : Prop :=
+  st.err = false ∧ st.writeInChunk = rc.compLen ∧ st.tgtCheck = some rc.tgt ∧ st.hash = some [] ∧
+  st.dlChunkData = rc.start ∧ st.cur = pre.length + 1 ∧ st.curNull = decide (pre.length + 1 ≥ e.ridx.length)
+
+/-- **one piece of the payload**: with `rc` open, the stored bytes of `rc :: rest` (a run of requested chunks, more entries
+`more` of the request still to come) delivered in one call: every byte is taken, the chunks of the piece end up valid, no
+other mark changes, and the next entry of the request — if there is one — is open -/
+theorem complete_piece (e : Env) (stored : Nat → Bytes) : ∀ (rest pre more : List RChunk) (rc : RChunk) (st : St) (F : Nat),
+    e.ridx = pre ++ rc :: rest ++ more → RunIdx rc.start (rc :: rest ++ more) →
+    (∀ r ∈ rc :: rest ++ more, EntryOk e stored r ∧ r.tgt < st.valid.length) →
+    (∀ r ∈ rest ++ more, st.valid.getD r.tgt 0 ≠ 1) → ((rc :: rest ++ more).map (·.tgt)).Nodup →
+    (∀ r ∈ pre, r.start < rc.start) → OpenAt e st pre rc →
+    2 * (payloadOf stored (rc :: rest)).length + 1 ≤ F →
+    let out := dlWriteRange e F st (payloadOf stored (rc :: rest))
+    out.1 = (payloadOf stored (rc :: rest)).length ∧
+    (∀ r ∈ rc :: rest, out.2.valid.getD r.tgt 0 = 1) ∧
+    (∀ k, st.valid.getD k 0 = 1 → out.2.valid.getD k 0 = 1) ∧
+    (∀ k, (∀ r ∈ rc :: rest, r.tgt ≠ k) → out.2.valid.getD k 0 = st.valid.getD k 0) ∧
+    out.2.valid.length = st.valid.length ∧
+    (∀ m ms, more = m :: ms → OpenAt e out.2 (pre ++ rc :: rest) m)
+  | rest, pre, more, rc, st, 0, _, _, _, _, _, _, _, hF => by omega
+  | rest, pre, more, rc, st, F + 1, hridx, hrun, hent, hnv, hnd, hpre, ho, hF => by
+    obtain ⟨he, hw, ht, hh, hd, hcur, hcn⟩ := ho
+    obtain ⟨⟨tc, htc, hsz, hlen, hhash⟩, hklt⟩ := hent rc List.mem_cons_self
+    have hpos : 0 < rc.compLen := hrun.2.1
+    have hrne : e.ridx.isEmpty = false := by rw [hridx]; simp
+    have hxne : payloadOf stored (rc :: rest) ≠ [] := by
+      intro h; have := congrArg List.length h; simp [payloadOf, hlen] at this; omega
+    have h1 := dlWrite_open st (payloadOf stored (rc :: rest)) [] (by omega) hh hxne
+    have hmin : min st.writeInChunk (payloadOf stored (rc :: rest)).length = rc.compLen := by
+      simp only [payloadOf, List.length_append, hlen, hw]; omega
+    have htake : (payloadOf stored (rc :: rest)).take rc.compLen = stored rc.tgt := by
+      simp only [payloadOf]
+      rw [List.take_append_of_le_length (by omega), List.take_of_length_le (by omega)]
+    rw [hmin, htake] at h1
+    intro out
+    have hout : out = dlWriteRange e (F + 1) st (payloadOf stored (rc :: rest)) := rfl
+    rw [hout, dwr_step e F st _ _ _ he hrne h1]
+    unfold cont
+    simp only [hw, Nat.sub_self, ↓reduceIte, List.nil_append]
+    have hv : dlSelect e { st with file := writeAt st.file st.pos (stored rc.tgt), pos := st.pos + rc.compLen, writeInChunk := 0, hash := some (stored rc.tgt), dlChunkData := st.dlChunkData + rc.compLen } =
+        (true, dlOpen e { st with file := writeAt st.file st.pos (stored rc.tgt), pos := st.pos + rc.compLen, writeInChunk := 0, hash := none, dlChunkData := st.dlChunkData + rc.compLen, valid := st.valid.set rc.tgt 1, tgtCheck := none }) := by
+      unfold dlSelect dlVerify
+      simp only [ht]
+      rw [valid_setChunkValid_ok e _ rc.tgt tc (stored rc.tgt) htc rfl (by omega) hhash]
+      simp
+    rw [hv]
+    simp only [not_true_eq_false, ↓reduceIte]
+    generalize hst2 : ({ st with file := writeAt st.file st.pos (stored rc.tgt), pos := st.pos + rc.compLen, writeInChunk := 0, hash := none, dlChunkData := st.dlChunkData + rc.compLen, valid := st.valid.set rc.tgt 1, tgtCheck := none } : St) = st2
+    have h2v : st2.valid = st.valid.set rc.tgt 1 := by rw [← hst2]
+    have h2d : st2.dlChunkData = rc.start + rc.compLen := by rw [← hst2]; simp only [hd]
+    have h2c : st2.cur = pre.length + 1 := by rw [← hst2]; exact hcur
+    have h2n : st2.curNull = decide (pre.length + 1 ≥ e.ridx.length) := by rw [← hst2]; exact hcn
+    have h2e : st2.err = false := by rw [← hst2]; exact he
+    have h2w : st2.writeInChunk = 0 := by rw [← hst2]
+    have hk1 : st2.valid.getD rc.tgt 0 = 1 := by rw [h2v]; exact getD_set_eq _ _ _ hklt
+    have hmono : ∀ k, st.valid.getD k 0 = 1 → st2.valid.getD k 0 = 1 := by
+      intro k hk; rw [h2v]; exact getD_set_mono _ _ _ hk
+    have hoth : ∀ k, rc.tgt ≠ k → st2.valid.getD k 0 = st.valid.getD k 0 := by
+      intro k hk; rw [h2v]; exact getD_set_ne _ _ _ _ (Ne.symm hk)
+    have h2l : st2.valid.length = st.valid.length := by rw [h2v]; simp
+    -- what comes next in the request
+    cases hnx : rest ++ more with
+    | nil =>
+      have hr0 : rest = [] := (List.append_eq_nil_iff.mp hnx).1
+      have hm0 : more = [] := (List.append_eq_nil_iff.mp hnx).2
+      subst hr0; subst hm0
+      have hlenr : e.ridx.length = pre.length + 1 := by rw [hridx]; simp
+      have hopen : dlOpen e st2 = { st2 with cur := 0, curNull := false } := by
+        unfold dlOpen
+        have hc0 : (if st2.curNull = true ∨ st2.cur ≥ e.ridx.length then 0 else st2.cur) = 0 := by
+          rw [if_pos (Or.inr (by rw [h2c, hlenr]; exact Nat.le_refl _))]
+        simp only [hc0, List.drop_zero]
+        rw [findNext_none e _ e.ridx 0 (by
+          intro r hr
+          simp only [h2d]
+          rw [hridx] at hr
+          simp only [List.append_nil] at hr
+          rcases List.mem_append.mp hr with h | h
+          · have := hpre r h; omega
+          · simp only [List.mem_singleton] at h; subst h; omega)]
+      rw [hopen]
+      simp only [h2w, Nat.lt_irrefl, false_and, ↓reduceIte, payloadOf, List.append_nil, hlen, gt_iff_lt]
+      refine ⟨trivial, ?_, hmono, ?_, h2l, ?_⟩
+      · intro r hr
+        simp only [List.mem_singleton] at hr
+        subst hr
+        exact hk1
+      · intro k hk; exact hoth k (hk rc List.mem_cons_self)
+      · intro m ms hm; simp at hm
+    | cons nx tail =>
+      have hnxmem : nx ∈ rc :: rest ++ more := by
+        rw [List.cons_append, hnx]; exact List.mem_cons_of_mem _ List.mem_cons_self
+      obtain ⟨⟨tc', htc', hsz', hlen', hhash'⟩, hklt'⟩ := hent nx hnxmem
+      have hrun0 : RunIdx (rc.start + rc.compLen) (nx :: tail) := by
+        have := hrun.2.2; rw [List.cons_append, hnx] at hrun; exact hrun.2.2
+      have hst' : nx.start = rc.start + rc.compLen := hrun0.1
+      have hpos' : 0 < nx.compLen := hrun0.2.1
+      have hlenr : e.ridx.length = pre.length + 2 + tail.length := by
+        rw [hridx, List.append_assoc, List.cons_append, hnx]; simp; omega
+      have hnd' : ((rc :: nx :: tail).map (·.tgt)).Nodup := by
+        have := hnd; rw [List.cons_append, hnx] at this; exact this
+      have hne : nx.tgt ≠ rc.tgt := by
+        intro heq
+        have := List.nodup_cons.mp hnd'
+        apply this.1
+        simp only [List.map_cons, List.mem_cons]
+        left; exact heq.symm
+      have hdrop : e.ridx.drop (pre.length + 1) = nx :: tail := by
+        rw [hridx, List.append_assoc, List.cons_append, hnx]
+        have : pre ++ rc :: nx :: tail = (pre ++ [rc]) ++ nx :: tail := by simp
+        rw [this]
+        exact List.drop_left' (by simp)
+      have hopen : dlOpen e st2 = { st2 with tgtCheck := some nx.tgt, hash := some [], writeInChunk := nx.compLen, pos := e.dataOff + tc'.start, cur := pre.length + 1 + 1, curNull := decide (pre.length + 1 + 1 ≥ e.ridx.length) } := by
+        unfold dlOpen
+        have hcn2 : st2.curNull = false := by rw [h2n, hlenr]; simp; omega
+        have hc0 : (if st2.curNull = true ∨ st2.cur ≥ e.ridx.length then 0 else st2.cur) = pre.length + 1 := by
+          have hcond : ¬ (st2.curNull = true ∨ st2.cur ≥ e.ridx.length) := by
+            rw [hcn2, h2c, hlenr]
+            intro hx
+            rcases hx with hx | hx
+            · exact absurd hx (by decide)
+            · omega
+          rw [if_neg hcond, h2c]
+        simp only [hc0, hdrop]
+        rw [findNext_head e _ nx tail (pre.length + 1) tc' (by simp only [h2d]; omega)
+          (by simp only [h2v]; rw [getD_set_ne _ _ _ _ hne]; exact hnv nx (by rw [hnx]; exact List.mem_cons_self)) htc' hsz']
+        simp only [htc']
+      rw [hopen]
+      generalize hst3 : ({ st2 with tgtCheck := some nx.tgt, hash := some [], writeInChunk := nx.compLen, pos := e.dataOff + tc'.start, cur := pre.length + 1 + 1, curNull := decide (pre.length + 1 + 1 ≥ e.ridx.length) } : St) = st3
+      have hopen3 : OpenAt e st3 (pre ++ [rc]) nx := by
+        rw [← hst3]
+        exact ⟨h2e, rfl, rfl, rfl, by simp only [h2d]; omega, by simp, by simp⟩
+      have h3v : st3.valid = st2.valid := by rw [← hst3]
+      cases rest with
+      | nil =>
+        -- the piece ends with `rc`; `nx` is the first entry of `more` and is now open
+        simp only [List.nil_append] at hnx
+        have hw3 : st3.writeInChunk = nx.compLen := hopen3.2.1
+        simp only [payloadOf, List.append_nil, hlen, Nat.lt_irrefl, and_false, ↓reduceIte]
+        refine ⟨trivial, ?_, ?_, ?_, by rw [h3v]; exact h2l, ?_⟩
+        · intro r hr
+          simp only [List.mem_singleton] at hr
+          subst hr; rw [h3v]; exact hk1
+        · intro k hk; rw [h3v]; exact hmono k hk
+        · intro k hk; rw [h3v]; exact hoth k (hk rc List.mem_cons_self)
+        · intro m ms hm
+          rw [hm] at hnx
+          simp only [List.cons.injEq] at hnx
+          rw [hnx.1]
+          simpa using hopen3
+      | cons rc' rest' =>
+        simp only [List.cons_append, List.cons.injEq] at hnx
+        obtain ⟨rfl, htail⟩ := hnx
+        have hpl : (payloadOf stored (rc :: rc' :: rest')).length = rc.compLen + (payloadOf stored (rc' :: rest')).length := by
+          simp only [payloadOf, List.length_append, hlen]
+        have hpl' : 0 < (payloadOf stored (rc' :: rest')).length := by
+          simp only [payloadOf, List.length_append, hlen']; omega
+        rw [if_pos ⟨by rw [hopen3.2.1]; exact hpos', by omega⟩]
+        have hdropx : (payloadOf stored (rc :: rc' :: rest')).drop rc.compLen = payloadOf stored (rc' :: rest') := by
+          show (stored rc.tgt ++ payloadOf stored (rc' :: rest')).drop rc.compLen = _
+          exact List.drop_left' hlen
+        rw [hdropx]
+        have hrun' : RunIdx rc'.start (rc' :: rest' ++ more) := by
+          rw [List.cons_append, htail, hst']; exact hrun0
+        have ih := complete_piece e stored rest' (pre ++ [rc]) more rc' st3 F (by rw [hridx]; simp) hrun'
+          (by
+            intro r hr
+            have := hent r (by simp only [List.cons_append, List.mem_cons] at hr ⊢; right; exact hr)
+            exact ⟨this.1, by rw [h3v, h2l]; exact this.2⟩)
+          (by
+            intro r hr
+            rw [h3v]
+            have hner : rc.tgt ≠ r.tgt := by
+              intro heq
+              have := List.nodup_cons.mp hnd
+              apply this.1
+              simp only [List.mem_map]
+              exact ⟨r, List.mem_cons_of_mem _ hr, heq.symm⟩
+            rw [hoth _ hner]
+            exact hnv r (by simp only [List.cons_append, List.mem_cons]; right; exact hr))
+          (by have := (List.nodup_cons.mp hnd).2; simpa using this)
+          (by
+            intro r hr
+            rcases List.mem_append.mp hr with h | h
+            · have := hpre r h; omega
+            · simp only [List.mem_singleton] at h; subst h; omega)
+          hopen3 (by omega)
+        obtain ⟨i1, i2, i3, i4, i5, i6⟩ := ih
+        generalize dlWriteRange e F st3 (payloadOf stored (rc' :: rest')) = o at i1 i2 i3 i4 i5 i6
+        unfold bump
+        rw [if_neg (by omega)]
+        refine ⟨by simp only; omega, ?_, ?_, ?_, by simp only; rw [i5, h3v]; exact h2l, ?_⟩
+        · intro r hr
+          rcases List.mem_cons.mp hr with rfl | hr'
+          · exact i3 _ (by rw [h3v]; exact hk1)
+          · exact i2 r hr'
+        · intro k hk
+          exact i3 k (by rw [h3v]; exact hmono k hk)
+        · intro k hk
+          simp only
+          rw [i4 k (fun r hr => hk r (List.mem_cons_of_mem _ hr)), h3v]
+          exact hoth k (hk rc List.mem_cons_self)
+        · intro m ms hm
+          have := i6 m ms hm
+          simpa using this
+
 /-- two different byte strings with the same checksum -/
 def Collision (H : HashFn) (t : Nat) : Prop := ∃ x y : Bytes, x ≠ y ∧ H t x = H t y ∧ (H t x).isSome
 
